@@ -122,7 +122,10 @@ func (sm *StateMachine) Handle(cmd string, handler diam.Handler) {
 }
 
 func (sm *StateMachine) HandleIdx(cmd diam.CommandIndex, handler diam.Handler) {
-	switch cmd {
+	// Whatever the application id: a CER, CEA or DWR whose header carries
+	// the id of an application is dispatched to the state machine by name,
+	// and an index for that id would take its place.
+	switch (diam.CommandIndex{Code: cmd.Code, Request: cmd.Request}) {
 	case baseCERIdx, baseCEAIdx, baseDWRIdx:
 		sm.Error(&diam.ErrorReport{
 			Error: fmt.Errorf("cannot overwrite %v command in the state machine", cmd),
